@@ -461,13 +461,18 @@ impl Debugger {
         let cb_result = f(self);
 
         debug!(target: "debugger", "enable all active breakpoints");
+        // re-arming fails when the debugee died during the call: an error, not a panic
+        let mut enable_result = Ok(());
         for brkpt in self.breakpoints.active_breakpoints() {
-            brkpt
-                .enable()
-                .expect("enable breakpoint after disable should not leads to error");
+            if let Err(e) = brkpt.enable()
+                && enable_result.is_ok()
+            {
+                enable_result = Err(e);
+            }
         }
 
-        cb_result
+        cb_result?;
+        enable_result
     }
 
     fn call_fn_raw(&self, fn_addr: RelocatedAddress, args: CallArgs) -> Result<(), Error> {
